@@ -17,6 +17,7 @@ mod solve;
 mod syntax;
 mod reader;
 mod session;
+mod timer;
 
 use serde_json::Value;
 
@@ -45,6 +46,7 @@ pub fn props_of(case: &Value) -> Vec<&'static str> {
         "solve" => solve::props_of(case),
         "reader" => reader::props_of(case),
         "session" => session::props_of(case),
+        "timer" => timer::props_of(case),
         t if t.starts_with("syn-") => syntax::props_of(case),
         _ => vec![],
     }
@@ -58,6 +60,7 @@ pub fn run_case(case: &Value) -> Vec<Obs> {
         "solve" => solve::replay(case),
         "reader" => reader::replay(case),
         "session" => session::replay(case),
+        "timer" => timer::replay(case),
         t if t.starts_with("syn-") => syntax::replay(case),
         "mklist" => lists::replay_mklist(case),
         "rename" => lists::replay_rename(case),
